@@ -69,6 +69,30 @@ def run(chk: Check, repo: Repo) -> None:
         # a task that restarts after reconnection is not started while disconnected (reconnected() starts it then)
         want = {((), "raise")} if not registered else ({((), "exit")} if (restart_opt and not connected) else {(("CREATE_TASK",), "exit")})
         chk.ob("task-start", f.site(), got == want, f"Task._start registered={registered} restart_after_reconnect={restart_opt} connected={connected}: {sorted(got)}; reference {sorted(want)}", key=f"start|{registered}|{restart_opt}|{connected}")
+    # ... with an eager task factory (Home Assistant's loop) `create_task` runs the target's first step before it returns:
+    # that step may remove this task (flag cleared) or start it again (slot filled by the inner start).  The instance just
+    # created is then not the current one - it is cancelled and the slot is left as the first step put it.
+    for eager in ("no", "removed", "restarted"):
+        inner = Obj("asyncio.Task", "inner")
+        def eager_calls(c: ast.Call, env, eager=eager):
+            if call_name(c).endswith("connection_manager.connected.is_set"):
+                return [Outcome(None, True)]
+            if call_name(c) == "asyncio.create_task":
+                if eager == "removed":
+                    env["self.xknx"] = None
+                elif eager == "restarted":
+                    env["self._task"] = inner
+                return [Outcome("CREATE_TASK", Obj("asyncio.Task", "new"))]
+            if isinstance(c.func, ast.Attribute) and c.func.attr == "cancel" and isinstance(c.func.value, ast.Name):
+                tgt = env.get(c.func.value.id)
+                if isinstance(tgt, Obj) and tgt.cls == "asyncio.Task":
+                    return [Outcome(f"CANCEL({tgt.tag})", None)]
+            return self_calls(c, env)
+        cfg, paths = _run(repo, f, eager_calls, {"self.xknx": Obj("XKNX", "x"), "self._task": None, "self.restart_after_reconnect": False})
+        got = {(tuple(t for t in p.env.get("trace", ()) if not t.startswith("raise:")), repr(p.env.get("self._task")), p.end_kind) for p in paths}
+        new = Obj("asyncio.Task", "new")
+        want = {"no": {(("CREATE_TASK",), repr(new), "exit")}, "removed": {(("CREATE_TASK", "CANCEL(new)"), "None", "exit")}, "restarted": {(("CREATE_TASK", "CANCEL(new)"), repr(inner), "exit")}}[eager]
+        chk.ob("task-start-eager", f.site(), got == want, f"Task._start, first step executed inside create_task: {eager}: (events, slot, end) = {sorted(got)}; reference {sorted(want)}", key=f"start-eager|{eager}")
     # Task.restart = cancel then start
     f = T("restart"); chk.unit(f)
     cfg, paths = _run(repo, f, self_calls, {})
